@@ -213,11 +213,101 @@ pub fn templated_workspace() -> Workspace {
     }
 }
 
+/// Names of the templated workspace that denote ONE entity wherever they are spelled (no
+/// shadowing, no second declaration): a rename started at any occurrence must be accepted and
+/// edit every occurrence - an oracle that does not ask the analysis.
+const TEMPLATE_UNIQUE: &[&str] = &["Circle", "Square", "Blob", "IntValue", "TextValue", "Shape", "Value", "unit", "area", "show"];
+
+/// The templated workspace under name substitutions: constructors and types spelled like the
+/// built-in ones (`Ok`, `Error`, `Nil`, `True`, `False`, `Result`, `Bool`), which a module may declare.
+pub fn templated_variants() -> Vec<(String, Workspace, Vec<String>)> {
+    let substitutions: Vec<(&str, Vec<(&str, &str)>)> = vec![
+        ("templated", vec![]),
+        ("templated@constructors Ok Error Nil", vec![("Circle", "Ok"), ("Square", "Error"), ("Blob", "Nil")]),
+        ("templated@constructors True False", vec![("IntValue", "True"), ("TextValue", "False")]),
+        ("templated@types Result Bool", vec![("Shape", "Result"), ("Value", "Bool")]),
+        ("templated@type and constructor share a spelling", vec![("Shape", "Circle"), ("Value", "IntValue")]),
+    ];
+    let base = templated_workspace();
+    substitutions
+        .into_iter()
+        .map(|(name, subst)| {
+            let mut ws = base.clone();
+            let rename = |t: &str| -> String {
+                let mut out = String::new();
+                let mut last = 0usize;
+                for (s, e, tok) in occurrences(t) {
+                    out.push_str(&t[last..s as usize]);
+                    out.push_str(subst.iter().find(|(a, _)| *a == tok).map(|(_, b)| *b).unwrap_or(&tok));
+                    last = e as usize;
+                }
+                out.push_str(&t[last..]);
+                out
+            };
+            for p in ws.packages.iter_mut() {
+                for f in p.files.iter_mut() {
+                    f.text = rename(&f.text);
+                }
+            }
+            // a spelling shared by a type and a constructor denotes two entities: not unique
+            let mapped: Vec<String> = TEMPLATE_UNIQUE.iter().map(|u| subst.iter().find(|(a, _)| a == u).map(|(_, b)| b.to_string()).unwrap_or(u.to_string())).collect();
+            let unique: Vec<String> = mapped.iter().filter(|u| mapped.iter().filter(|x| x == u).count() == 1).cloned().collect();
+            (name.to_string(), ws, unique)
+        })
+        .collect()
+}
+
+/// Coverage by construction on the templated workspaces.
+fn templated_coverage_layer(rep: &mut Report) {
+    let mut l = Layer { name: "templated-coverage".into(), exhaustive: true, ..Default::default() };
+    let variants = templated_variants();
+    for (name, ws, unique) in &variants {
+        let files = ws.files();
+        let host = ws.host();
+        let an = host.snapshot();
+        for u in unique {
+            // every occurrence of the spelling, in every module
+            let mut all: BTreeMap<FileId, Vec<(u32, u32)>> = BTreeMap::new();
+            for f in files.iter().filter(|f| f.is_module) {
+                for (s, e, t) in occurrences(&f.text) {
+                    if t == *u {
+                        all.entry(f.id).or_default().push((s, e));
+                    }
+                }
+            }
+            let fresh = if u.chars().next().map_or(false, |c| c.is_uppercase()) { FRESH_UPPER } else { FRESH_LOWER };
+            for f in files.iter().filter(|f| f.is_module) {
+                for (s, _) in all.get(&f.id).cloned().unwrap_or_default() {
+                    l.states += 1;
+                    l.executions += 1;
+                    l.transitions += 1;
+                    let w = json!({"templated_variant": name, "file": f.rel, "offset": s, "name": u});
+                    match rename_edits(&an, f.id, s, fresh) {
+                        Err(m) => rep.violation(Violation { class: "panic".into(), key: panic_class(&m), witness: w, detail: format!("[{name}] rename of {u} at {}:{s} panicked: {m}", f.rel) }),
+                        Ok(Err(e)) => rep.violation(Violation { class: "rename-refused".into(), key: format!("templated|{}|{}", name.split('@').nth(1).unwrap_or("plain"), kind_key(&f.text, s)), witness: w, detail: format!("[{name}] rename of `{u}` at {}:{s} is refused ({e}); the spelling denotes one declared entity of the workspace", f.rel) }),
+                        Ok(Ok(edits)) => {
+                            let got: BTreeMap<FileId, Vec<(u32, u32)>> = edits.iter().map(|(k, v)| (*k, v.iter().map(|e| (e.0, e.1)).collect())).filter(|(_, v): &(FileId, Vec<(u32, u32)>)| !v.is_empty()).collect();
+                            if got != all {
+                                let count = |m: &BTreeMap<FileId, Vec<(u32, u32)>>| m.values().map(|v| v.len()).sum::<usize>();
+                                rep.violation(Violation { class: "rename-misses-occurrences".into(), key: format!("templated|{}|{}", name.split('@').nth(1).unwrap_or("plain"), kind_key(&f.text, s)), witness: w, detail: format!("[{name}] rename of `{u}` started at {}:{s} edits {} places, the spelling occurs {} times and denotes one entity everywhere", f.rel, count(&got), count(&all)) });
+                            }
+                        }
+                    }
+                }
+            }
+        }
+    }
+    l.bound = format!("{} variants of the templated workspace (plain; constructors spelled Ok / Error / Nil; True / False; types spelled Result / Bool; a type spelled like a constructor of another type) x every name that denotes a single entity x every occurrence of it in 7 modules: the rename is accepted and edits exactly all occurrences of the spelling", variants.len());
+    rep.layer(l);
+}
+
 pub fn run_c07(tier: Tier) -> i32 {
     let mut rep = Report::new("C07", tier);
     let mut wss = base_workspaces();
     wss.push(("c08".into(), c08_workspace().0));
-    wss.push(("templated".into(), templated_workspace()));
+    for (n, w, _) in templated_variants() {
+        wss.push((n, w));
+    }
     let mut accepted = 0u64;
     let mut kinds_accepted: BTreeSet<String> = BTreeSet::new();
     // generated scoping programs: shadowing is the norm there, so a rename that captures or
@@ -323,6 +413,7 @@ pub fn run_c07(tier: Tier) -> i32 {
         l.bound = format!("every identifier occurrence x a fresh name of the spelling's case class; {acc_here} renames accepted and fully checked (token edits, = references, binding graph isomorphic over EVERY occurrence, diagnostics unchanged, round trip)");
         rep.layer(l);
     }
+    templated_coverage_layer(&mut rep);
     rep.distinct_nontrivial = accepted;
     rep.distinct_outcomes = kinds_accepted.len() as u64;
     rep.rule = "non-trivial = accepted renames (each re-analysed in a second host); outcomes = distinct syntactic positions (node-kind chains) at which a rename was accepted".into();
@@ -360,9 +451,16 @@ pub fn replay_c07(w: &Value) -> Vec<String> {
             Err(m) => vec![format!("panic: {m}")],
         };
     }
+    if let Some(vn) = w["templated_variant"].as_str() {
+        let mut rep = Report::new("C07", Tier::Quick);
+        templated_coverage_layer(&mut rep);
+        return rep.violations.iter().filter(|v| v.witness["templated_variant"].as_str() == Some(vn) && v.witness["offset"] == w["offset"] && v.witness["file"] == w["file"]).map(|v| format!("{}: {}", v.class, v.detail)).collect();
+    }
     let mut wss = base_workspaces();
     wss.push(("c08".into(), c08_workspace().0));
-    wss.push(("templated".into(), templated_workspace()));
+    for (n, w, _) in templated_variants() {
+        wss.push((n, w));
+    }
     let Some(ws) = find_ws(&wss, w["workspace"].as_str().unwrap_or("")) else { return vec!["unknown workspace".into()] };
     let files = ws.files();
     let Some(fi) = files.iter().position(|f| Some(f.rel.as_str()) == w["file"].as_str()) else { return vec!["unknown file".into()] };
@@ -408,6 +506,10 @@ pub fn func(param: Int, label inner: Int) {
   let x: Ext = r
   let a: Al = t
   let b = Ok(1)
+  let b2 = Error(2)
+  let b3 = Nil
+  let b4 = True
+  let b5 = False
   let l = loc.loc_fn(1)
   let m = om.mod_fn(1)
   let g = ef(3)
@@ -470,6 +572,10 @@ fn probes() -> Vec<Probe> {
         p("module-qualifier", "dep.ext_fn(2)", 0, 0, Lower, false, true),
         p("module-alias-qualifier", "om.mod_fn", 0, 0, Lower, false, true),
         p("builtin-constructor", "Ok(1)", 0, 0, Upper, false, true),
+        p("builtin-constructor Error", "Error(2)", 0, 0, Upper, false, true),
+        p("builtin-constructor Nil", "= Nil\n", 0, 2, Upper, false, true),
+        p("builtin-constructor True", "= True\n", 0, 2, Upper, false, true),
+        p("builtin-constructor False", "= False\n", 0, 2, Upper, false, true),
         p("aliased-import-use", "ef(3)", 0, 0, Lower, false, false),
         p("aliased-import-alias-name", "as ef", 0, 3, Lower, false, false),
         p("extern-fn-unqualified-use", "= ext_fn(1)", 0, 2, Lower, true, false),
@@ -500,9 +606,18 @@ fn probes() -> Vec<Probe> {
 }
 
 pub fn c08_workspace() -> (Workspace, usize) {
+    c08_workspace_v(false)
+}
+
+const C08_ERRS: &str = "pub type Ok {\n  Ok(v: Int)\n}\n\npub type Error {\n  Error(message: String)\n}\n\npub type Nil {\n  Nil\n}\n\npub type True {\n  True\n}\n\npub type False {\n  False\n}\n";
+
+/// `type_imports`: main also imports the TYPES `Ok`, `Error`, `Nil`, `True`, `False` of a local
+/// module whose constructors are spelled the same; the values stay the built-in ones.
+pub fn c08_workspace_v(type_imports: bool) -> (Workspace, usize) {
+    let main = if type_imports { C08_MAIN.replacen("\n\npub type Ty", "\nimport errs.{type Ok, type Error, type Nil, type True, type False}\n\npub type Ty", 1) } else { C08_MAIN.to_string() };
     let ws = Workspace {
         packages: vec![
-            WsPackage { name: "app".into(), files: vec![WsFile { rel: "src/main.gleam".into(), text: C08_MAIN.into() }, WsFile { rel: "src/other/mod.gleam".into(), text: "pub fn mod_fn(x) { x }\n".into() }, WsFile { rel: "src/local/dep.gleam".into(), text: "pub fn dep_local(x) {\n  x\n}\n".into() }], deps: vec![1, 2], is_local: true },
+            WsPackage { name: "app".into(), files: vec![WsFile { rel: "src/main.gleam".into(), text: main }, WsFile { rel: "src/errs.gleam".into(), text: C08_ERRS.into() }, WsFile { rel: "src/other/mod.gleam".into(), text: "pub fn mod_fn(x) { x }\n".into() }, WsFile { rel: "src/local/dep.gleam".into(), text: "pub fn dep_local(x) {\n  x\n}\n".into() }], deps: vec![1, 2], is_local: true },
             WsPackage { name: "dep".into(), files: vec![WsFile { rel: "src/dep.gleam".into(), text: "pub type Ext {\n  ExtCtor\n}\n\npub fn ext_fn(x) {\n  x\n}\n\npub const ext_const = 1\n".into() }, WsFile { rel: "src/x/loc.gleam".into(), text: "pub fn loc_fn(x) {\n  x\n}\n".into() }], deps: vec![], is_local: false },
             WsPackage { name: "loc".into(), files: vec![WsFile { rel: "src/loc.gleam".into(), text: "pub fn loc_fn(x) {\n  x\n}\n\npub fn loc_two(x) {\n  x\n}\n\npub const loc_const = 1\n\npub type LocTy {\n  LocCtor\n}\n".into() }], deps: vec![], is_local: true },
         ],
@@ -547,16 +662,18 @@ fn candidates() -> Vec<(&'static str, Option<Class>)> {
 
 pub fn run_c08(tier: Tier) -> i32 {
     let mut rep = Report::new("C08", tier);
-    let (ws, _) = c08_workspace();
+    let cands = candidates();
+    let mut decisions: BTreeSet<String> = BTreeSet::new();
+    let mut l = Layer { name: "decision-table".into(), exhaustive: true, ..Default::default() };
+    let mut accepted = 0u64;
+    for type_imports in [false, true] {
+    let (ws, _) = c08_workspace_v(type_imports);
     let files = ws.files();
     let host = ws.host();
     let an = host.snapshot();
     let main = &files[0];
     let nonlocal: BTreeSet<FileId> = files.iter().filter(|f| !ws.packages[f.package].is_local).map(|f| f.id).collect();
-    let cands = candidates();
-    let mut decisions: BTreeSet<String> = BTreeSet::new();
-    let mut l = Layer { name: "decision-table".into(), exhaustive: true, ..Default::default() };
-    let mut accepted = 0u64;
+    let vtag = if type_imports { "|beside type imports spelled like the built-ins" } else { "" };
     for p in probes() {
         let Some(pos) = main.text.match_indices(p.needle).nth(p.nth).map(|m| m.0 + p.inner) else {
             rep.machinery(format!("probe {} not found", p.name));
@@ -578,7 +695,7 @@ pub fn run_c08(tier: Tier) -> i32 {
             l.transitions += 1;
             let expect_ok = p.renameable && p.local && *cclass == Some(p.class);
             let got = rename_edits(&an, main.id, off, cand);
-            let w = json!({"probe": p.name, "candidate": cand});
+            let w = json!({"probe": p.name, "candidate": cand, "type_imports": type_imports});
             match got {
                 Err(m) => rep.violation(Violation { class: "panic".into(), key: format!("{}|{}", p.name, panic_class(&m)), witness: w, detail: format!("rename {:?} at {} panicked: {m}", cand, p.name) }),
                 Ok(r) => {
@@ -600,7 +717,7 @@ pub fn run_c08(tier: Tier) -> i32 {
                             Some(Class::Upper) => "valid-uppercase",
                             None => "invalid-name",
                         };
-                        rep.violation(Violation { class: class.into(), key: format!("{}|{}", p.name, cand_class), witness: w, detail: format!("rename of {} to {:?}: {} (expected {}: {why})", p.name, cand, if r.is_ok() { "accepted" } else { "refused" }, if expect_ok { "accept" } else { "refuse" }) });
+                        rep.violation(Violation { class: class.into(), key: format!("{}|{}{vtag}", p.name, cand_class), witness: w, detail: format!("rename of {} to {:?}: {} (expected {}: {why})", p.name, cand, if r.is_ok() { "accepted" } else { "refused" }, if expect_ok { "accept" } else { "refuse" }) });
                     }
                 }
             }
@@ -609,10 +726,11 @@ pub fn run_c08(tier: Tier) -> i32 {
         let rv = rename_edits(&an, main.id, off, valid_name).map(|r| r.is_ok()).unwrap_or(false);
         l.executions += 1;
         if rv != prep_ok {
-            rep.violation(Violation { class: "prepare-rename-disagree".into(), key: p.name.to_string(), witness: json!({"probe": p.name, "candidate": valid_name}), detail: format!("{}: prepare_rename {} but rename to {:?} {}", p.name, if prep_ok { "accepts" } else { "refuses" }, valid_name, if rv { "is accepted" } else { "is refused" }) });
+            rep.violation(Violation { class: "prepare-rename-disagree".into(), key: format!("{}{vtag}", p.name), witness: json!({"probe": p.name, "candidate": valid_name, "type_imports": type_imports}), detail: format!("{}: prepare_rename {} but rename to {:?} {}", p.name, if prep_ok { "accepts" } else { "refuses" }, valid_name, if rv { "is accepted" } else { "is refused" }) });
         }
     }
-    l.bound = format!("{} symbol probes (kinds x definition/use sites x local / other local package / build-packages package) x {} candidate names (15 keywords, valid and malformed identifiers of both cases, literals, operators, empty/space/multi-token, non-ASCII)", probes().len(), cands.len());
+    }
+    l.bound = format!("2 variants of the probe module (with / without type imports `import errs.{{type Ok, type Error, type Nil, type True, type False}}` of types whose constructors are spelled like the built-in values) x {} symbol probes (kinds x definition/use sites x local / other local package / build-packages package; all five built-in constructors) x {} candidate names (15 keywords, valid and malformed identifiers of both cases, literals, operators, empty/space/multi-token, non-ASCII)", probes().len(), cands.len());
     rep.layer(l);
     {
         // at every identifier occurrence of the base workspaces and of the probe workspace:
@@ -671,7 +789,7 @@ pub fn run_c08(tier: Tier) -> i32 {
 
 pub fn replay_c08(w: &Value) -> Vec<String> {
     if let Some(pn) = w["probe"].as_str() {
-        let (ws, _) = c08_workspace();
+        let (ws, _) = c08_workspace_v(w["type_imports"].as_bool().unwrap_or(false));
         let files = ws.files();
         let host = ws.host();
         let an = host.snapshot();
